@@ -57,6 +57,13 @@ def get_line_range_for_node(
 
     """
     first_lineno = node.lineno
+    # decorators come before the line of the def or class statement itself
+    for decorator in getattr(node, "decorator_list", []):
+        first_lineno = min(first_lineno, decorator.lineno)
+    node_end_lineno = getattr(node, "end_lineno", None)
+    if node_end_lineno is not None:
+        # the parser records where the node ends
+        return list(range(first_lineno, node_end_lineno + 1))
     # iterate through all childnodes and find the max lineno
     last_lineno = first_lineno + 1
     for childnode in ast.walk(node):
